@@ -12,6 +12,8 @@ Line-protocol handler for the application-session product machine (`Model/AppSes
             (recvnw u), (login u), (cancel u))  |  (run D2|V2|W<i>)  |  (aclose u)  |  (arecv u)  |  (acancel u)
 
   answer: per event `disabled` or `((o <obs>*) (r <runnable tasks>) (a <alive tasks>) (f <flags>))`, then `(final …)`.
+  `D2` inside `soup_session.close()` (a `close()` awaited from the message callback) is listed as runnable when its inner alias
+  `U 0` is; inner user events naming `U 0` are `disabled` (reserved); the inner `(ret 0 ok)` of that close is not printed.
   Inner observables are printed with an `i` prefix for the callbacks the application session installs (`imsgEnter`, `icbEnter`, …);
   the inner close callback is not printed while the application session does not exist (no callback is installed then).
 
@@ -92,10 +94,15 @@ def aobsStr : AObs → String
   | .closeRet .closeCb r => s!"(cbclose {SessD.resStr r})"
 
 def pobsStr (built : Bool) : PObs → Option String
+  | .inner (.ret u r) => if u = d2u then none else some (innerObsStr (.ret u r))   -- `soup_session.close()` returned to `D2`: not a user call
   | .inner .cbEnter => if built then some "icbEnter" else none
   | .inner .cbExit => if built then some "icbExit" else none
   | .inner o => some (innerObsStr o)
   | .app o => some (aobsStr o)
+
+/-- can the application-level task `t` take a step: runnable, or `D2` inside `soup_session.close()` whose inner alias is -/
+def runnableA (s : St) (t : ATid) : Bool :=
+  runnable2 s t || (t == .D2 && s.astatus .D2 == .inSoup && runnableI s (.U d2u))
 
 /-- the tasks that continue within the same real step run again at once -/
 def settle (a : ACfg) : Nat → St → St
@@ -127,7 +134,7 @@ def evtStr : Option Bool → String
 def report (s : St) (us ws : List Nat) : String :=
   let itids := SessD.libTasks ++ us.map Sess.Tid.U
   let atids := [ATid.D2, ATid.V2] ++ ws.map ATid.W
-  let run := (itids.filter fun t => runnableI s t).map SessD.tidStr ++ (atids.filter fun t => runnable2 s t).map atidStr
+  let run := (itids.filter fun t => runnableI s t).map SessD.tidStr ++ (atids.filter fun t => runnableA s t).map atidStr
   let alv := (itids.filter fun t => Sess.alive (s.inner.status t)).map SessD.tidStr ++
              (atids.filter fun t => alive2 (s.astatus t)).map atidStr
   let fl := if s.built then s!"{s.inner.closed} {s.appClosed} {s.q2Closed} {evtStr s.evt} {s.q2.length} {s.disp2Set}" else s!"{s.inner.closed}"
@@ -138,8 +145,9 @@ def runLog (a : ACfg) (evs : List Ev) : St × Array String :=
   evs.foldl (fun (acc : St × Array String) ev =>
     let (s, outs) := acc
     let enabled := match ev with
-      | .run t => runnable2 s t
-      | .inner (.run t) => runnableI s t
+      | .run t => runnableA s t
+      | .inner (.run t) => runnableI s t && !reservedEv (.run t)
+      | .inner e => !reservedEv e
       | _ => true
     if !enabled then (s, outs.push "disabled")
     else
